@@ -54,7 +54,7 @@ def maxStackDefault : Nat := 1000000
 def Built.captures (b : Built) (c : Ctx) (limit fuel : Nat) : SearchResult × Stats :=
   match b.kind with
   | .wrap =>
-    match refSearch c b.raw b.nGroups with
+    match refSearchK c b.raw b.nGroups with
     | some f => (.found f.slots, {})
     | none => (.noMatch, {})
   | .fancy prog =>
